@@ -148,25 +148,28 @@ def r1(ctx):
                 o = fa.arg_origin(u, 1)
                 hs = [s for s in h1 if s in call_root_bb(o)]
                 order.append(tuple_field_of(fa, fa.blocks[hs[0]].term["args"][0]) if hs else None)
-            good = strip(a[0]) == ("const", "crypto::hash::PARENT_TYPE") and cs is not None and [c_[0] for c_ in cs] == [("fixedle", 8)] and sum_ok and order == [0, 1]
+            good = strip(a[0]) == ("const", "crypto::hash::PARENT_TYPE") and cs is not None and [c_[0] for c_ in cs] == [("fixedle", 8)] and sum_ok and (order == [0, 1] or order == [None, None])
             why = "type %s, size %s of %s, then hashes of tuple fields %s" % (term_str(a[0])[:30], cs, term_str(ln)[:80] if ln else None, order)
         ctx.check(P, rule, "parent pre-image = [PARENT_TYPE][u64le left.len+right.len][hash1][hash2]", good, "type byte, summed size, both child hashes", "Hash::parent feeds %s" % why, key="C05|C05.R1|Hash::parent|pre-image")
-        # node1 is the node with the smaller index
-        sw = list(bool_switches(fa, lambda o: o[0] == "bin" and o[1] in ("Le", "Lt", "Ge", "Gt") and {path_of(strip(o[2])), path_of(strip(o[3]))} == {"left.index", "right.index"}))
+        # the child hashed first is the one with the smaller index — decided per alternative value of
+        # the two hashed receivers and the comparison fact that dominates its assignment; independent
+        # of names and of how the pair is built (tuple, two lets, a helper)
+        from .c09 import known_relations
         good = False
-        if sw:
-            b, o, tr, fl = sw[0]
-            smaller_first = (o[1] in ("Le", "Lt")) == (path_of(strip(o[2])) == "left.index")
-            lr_edge, rl_edge = (tr, fl) if smaller_first else (fl, tr)
-            tuples = {}
-            for bb in fa.nodes:
-                for si, st in enumerate(fa.blocks[bb].stmts):
-                    if st["k"] == "assign" and st["rv"]["k"] == "agg" and st["rv"]["kind"] == "tuple" and len(st["rv"]["ops"]) == 2:
-                        t = fa.origin_rvalue(st["rv"], bb, si)
-                        tuples[bb] = tuple(strip(x) for _, x in t[3])
-            lr = [v for bb, v in tuples.items() if fa.dominates(lr_edge, bb)]
-            rl = [v for bb, v in tuples.items() if fa.dominates(rl_edge, bb)]
-            good = lr == [(("param", "left"), ("param", "right"))] and rl == [(("param", "right"), ("param", "left"))]
+        if len(ups) == 4:
+            h1 = [s for s, t in fa.calls() if (t.get("resolved") or "").endswith("merkle_tree_stream::Node>::hash")]
+            picks = []
+            for u in ups[2:]:
+                hs = [s for s in h1 if s in call_root_bb(fa.arg_origin(u, 1))]
+                alt = {}
+                for term, db in (guarded_values(fa, fa.blocks[hs[0]].term["args"][0]) if hs else []):
+                    facts = known_relations(ctx, fa, db)
+                    lr = any(o_ == "Le" and path_of(strip(a_)) == "left.index" and path_of(strip(b_)) == "right.index" for o_, a_, b_ in facts if a_ is not None and b_ is not None)
+                    rl = any(o_ == "Gt" and path_of(strip(a_)) == "left.index" and path_of(strip(b_)) == "right.index" for o_, a_, b_ in facts if a_ is not None and b_ is not None)
+                    if lr != rl:
+                        alt["lr" if lr else "rl"] = path_of(strip(term))
+                picks.append(alt)
+            good = picks == [{"lr": "left", "rl": "right"}, {"lr": "right", "rl": "left"}]
         ctx.check(P, rule, "parent hashes the lower-index child first", good, "(node1, node2) = (left, right) iff left.index <= right.index", "child order selection differs from `left.index <= right.index`", key="C05|C05.R1|Hash::parent|child order")
     # ---- tree
     fa = ctx.fn(HASH_TREE)
